@@ -686,3 +686,51 @@ func ruleC16LexerTokenizer(c *Ctx) {
 	}
 	c.Check(finite, "c16.lexer-tokenizer", "float-finite", "sanitizer/sanitizer.go", "FormatFloat is reached only for finite values", "a float64 argument is rendered without excluding NaN and the infinities: their text (NaN, +Inf) is read by the parser as a column reference, so the argument selects document data")
 }
+
+func init() { register("C16", ruleC16CommandImmutable) }
+
+// ruleC16CommandImmutable: rendering leaves the prepared command as it was.
+func ruleC16CommandImmutable(c *Ctx) {
+	c.Doc("c16.command-immutable", "a prepared sanitizer Command is only read by its methods: every use of a field of the receiver in a method of Command is a load — no store, no address taken (a scratch buffer kept in the Command carries the text of a rejected call into the next accepted one; two goroutines sharing a prepared Command would interleave)")
+	n := 0
+	for _, f := range c.P.pkgFuncs(sanitizePath) {
+		if f.Signature.Recv() == nil || len(f.Params) == 0 || len(f.Blocks) == 0 || !strings.HasSuffix(shortType(f.Params[0].Type()), "Command") {
+			continue
+		}
+		n++
+		bad := ""
+		allInstrs(f, func(_ *ssa.BasicBlock, in ssa.Instruction) {
+			switch x := in.(type) {
+			case *ssa.FieldAddr:
+				if x.X != ssa.Value(f.Params[0]) || x.Referrers() == nil {
+					return
+				}
+				for _, r := range *x.Referrers() {
+					switch u := r.(type) {
+					case *ssa.UnOp:
+						if u.Op != token.MUL {
+							bad = "the address of the field " + fieldName(x.X.Type(), x.Field) + " of the command is used at " + c.P.Pos(u.Pos())
+						}
+					case *ssa.DebugRef:
+					case *ssa.Store:
+						if u.Addr == ssa.Value(x) {
+							bad = "the field " + fieldName(x.X.Type(), x.Field) + " of the command is written at " + c.P.Pos(u.Pos())
+						} else {
+							bad = "the address of the field " + fieldName(x.X.Type(), x.Field) + " of the command is kept at " + c.P.Pos(u.Pos())
+						}
+					default:
+						bad = "the field " + fieldName(x.X.Type(), x.Field) + " of the command is handed on by address at " + c.P.Pos(r.Pos()) + " (a buffer kept in the command survives a rejected call and leaks its text into the next one)"
+					}
+				}
+			case *ssa.Store:
+				if x.Addr == ssa.Value(f.Params[0]) {
+					bad = "the command is overwritten at " + c.P.Pos(x.Pos())
+				}
+			}
+		})
+		c.Check(bad == "", "c16.command-immutable", c.P.funcKey(f), c.P.Pos(f.Pos()), "the receiver's fields are only loaded", bad)
+	}
+	if n == 0 {
+		c.Unknown("c16.command-immutable", "Command", "-", "anchor lost: no method of the sanitizer's Command")
+	}
+}
